@@ -4,8 +4,9 @@
 package vrt
 
 const (
-	EvCall    = 0
-	EvCleanup = 1
+	EvCall       = 0
+	EvCleanup    = 1
+	EvBadCleanup = 2 // the cleanup result a provider returned together with an error was called
 )
 
 type Event struct {
@@ -52,6 +53,12 @@ func Call(node int, hasErr bool, args ...int) (int, error) {
 
 func CleanupFn(node int) func() {
 	return func() { Log = append(Log, Event{Kind: EvCleanup, Node: node}) }
+}
+
+// FailedCleanupFn is what a failing provider returns as its cleanup result:
+// the injector must never call it.
+func FailedCleanupFn(node int) func() {
+	return func() { Log = append(Log, Event{Kind: EvBadCleanup, Node: node}) }
 }
 
 // ---- spec
@@ -164,6 +171,10 @@ func Check(s *Spec, out Outcome) {
 	var acquired []int // cleanup-returning providers that succeeded, in call order
 	nCleanupEvents := 0
 	for i, ev := range log {
+		if ev.Kind == EvBadCleanup {
+			A("C03", false, "the cleanup result of the failing provider itself is never called")
+			continue
+		}
 		if ev.Kind == EvCleanup {
 			nCleanupEvents++
 			continue
